@@ -104,6 +104,23 @@ def hooks():
             return CW.const(s.lstrip() if nm.endswith("start") else s.rstrip())
         if re.search(r"<impl str>::chars$", nm):
             return LM.itr(tuple(CW.const(ord(c)) for c in s))
+        if re.search(r"<impl str>::lines$", nm):
+            ls = s.split("\n")
+            if ls and ls[-1] == "":
+                ls = ls[:-1]
+            return LM.itr(tuple(CW.const(x[:-1] if x.endswith("\r") else x) for x in ls))
+        if re.search(r"<impl str>::split_inclusive$", nm) and p:
+            parts = [x + p for x in s.split(p)]
+            parts[-1] = parts[-1][:-len(p)]
+            if parts[-1] == "":
+                parts = parts[:-1]
+            return LM.itr(tuple(CW.const(x) for x in parts))
+        if re.search(r"<impl str>::(matches|rmatches)$", nm) and p:
+            return LM.itr(tuple(CW.const(p) for _ in range(s.count(p))))
+        if re.search(r"<impl str>::bytes$", nm):
+            return LM.itr(tuple(CW.const(x) for x in s.encode()))
+        if re.search(r"<impl str>::char_indices$", nm):
+            return LM.itr(tuple(("tuple", (CW.const(len(s[:i].encode())), CW.const(ord(c)))) for i, c in enumerate(s)))
         if re.search(r"<impl str>::eq_ignore_ascii_case$|<impl \[u8\]>::eq_ignore_ascii_case$", nm):
             o = _s(a1)
             if o is not None:
